@@ -49,6 +49,7 @@ FILES = [
     {"kind": "file", "path": "scrip/outCSne8/outCSne8.nc"},
     {"kind": "file", "path": "exodus/outCSne8/outCSne8.g"},
     {"kind": "file", "path": "mpas/QU/mesh.QU.1920km.151026.nc"},
+    {"kind": "file", "path": "mpas/QU/mesh.QU.1920km.151026.nc", "use_dual": True},
 ]
 DERIVE = [
     "n_edge", "face_edge_connectivity", "edge_face_connectivity", "node_face_connectivity", "face_face_connectivity", "face_lon",
@@ -309,6 +310,9 @@ class Encode(Profile):
             with warnings.catch_warnings():
                 warnings.simplefilter("ignore")
                 g3 = ux.open_grid(path)
+                # the caller's temporary file goes away once the grid is open (an open handle keeps
+                # the data readable); the path may be reused by the next encoding
+                os.remove(path)
                 got3 = Wd.aligned_model(g3)
         except Exception as e:
             return out, [V(f"{sig}/reopen-file/exception({type(e).__name__})/grid[{gclass}]", i, f"opening the written {fmt} file of {h} raised {type(e).__name__}: {str(e)[:200]}")]
